@@ -580,3 +580,32 @@ impl<T, E> MapSome<T, E> for core::result::Result<T, E> {
 pub struct ItemIter { pub inner: RoIter<NodeCodec>, pub dimensions: usize }
 /// Vec::truncate as specified by vstd (n <= len: prefix of length n; else unchanged)
 pub open spec fn trunc(s: Seq<f32>, n: int) -> Seq<f32> { if n <= s.len() { s.subrange(0, n) } else { s } }
+
+// ---- rule R6b: `for x in coll` over a Vec<u32> (by value) or a &RoaringBitmap (ascending ids) as an index loop ----
+pub trait IdxIter {
+    spec fn seq_(&self) -> Seq<u32>;
+    fn count_(&self) -> (r: usize) ensures r == self.seq_().len();
+    fn nth_(&self, i: usize) -> (r: u32) requires i < self.seq_().len() ensures r == self.seq_()[i as int];
+}
+impl IdxIter for Vec<u32> {
+    open spec fn seq_(&self) -> Seq<u32> { self@ }
+    fn count_(&self) -> (r: usize) { self.len() }
+    fn nth_(&self, i: usize) -> (r: u32) { self[i] }
+}
+/// a bitmap iterates its members in ascending order, each once
+pub uninterp spec fn bm_seq(s: Set<u32>) -> Seq<u32>;
+#[verifier::allow(broadcast_without_trigger)]
+pub broadcast proof fn axiom_bm_seq(s: Set<u32>)
+    ensures
+        (forall|i: int, j: int| 0 <= i < j < (#[trigger] bm_seq(s)).len() ==> bm_seq(s)[i] < bm_seq(s)[j]),
+        (forall|i: int| 0 <= i < bm_seq(s).len() ==> s.contains(#[trigger] bm_seq(s)[i])),
+        (forall|x: u32| s.contains(x) ==> bm_seq(s).contains(x)),
+        bm_seq(s).len() == s.len(),
+{ admit(); }
+impl IdxIter for &RoaringBitmap {
+    open spec fn seq_(&self) -> Seq<u32> { bm_seq((**self)@) }
+    #[verifier::external_body]
+    fn count_(&self) -> (r: usize) { unimplemented!() }
+    #[verifier::external_body]
+    fn nth_(&self, i: usize) -> (r: u32) { unimplemented!() }
+}
